@@ -220,26 +220,34 @@ impl Memo {
                 scan.table_id.hash(hasher);
                 scan.table_name.hash(hasher);
                 scan.columns.hash(hasher);
-                // Note: predicate not hashed (structural comparison would be complex)
+                // Two scans with different predicates are different expressions.
+                format!("{:?}", scan.predicate).hash(hasher);
             }
             LogicalOperator::IndexScan(scan) => {
                 scan.table_id.hash(hasher);
                 scan.index_id.hash(hasher);
                 scan.index_columns.hash(hasher);
             }
+            // The expressions an operator evaluates are part of its identity: hashing only their number made
+            // e.g. two different filters (or joins with different conditions) over the same inputs collapse
+            // into one memo entry, and the plan silently used the wrong predicate.
             LogicalOperator::Project(proj) => {
-                proj.expressions.len().hash(hasher);
+                format!("{:?}", proj.expressions).hash(hasher);
                 proj.output_schema.num_columns().hash(hasher);
             }
             LogicalOperator::Join(join) => {
                 std::mem::discriminant(&join.join_type).hash(hasher);
+                format!("{:?}", join.condition).hash(hasher);
             }
             LogicalOperator::Aggregate(agg) => {
-                agg.group_by.len().hash(hasher);
-                agg.aggregates.len().hash(hasher);
+                format!("{:?}", agg.group_by).hash(hasher);
+                format!("{:?}", agg.aggregates).hash(hasher);
             }
             LogicalOperator::Sort(sort) => {
-                sort.order_by.len().hash(hasher);
+                format!("{:?}", sort.order_by).hash(hasher);
+            }
+            LogicalOperator::Filter(filter) => {
+                format!("{:?}", filter.predicate).hash(hasher);
             }
             LogicalOperator::Limit(limit) => {
                 limit.limit.hash(hasher);
@@ -264,7 +272,6 @@ impl Memo {
             }
             LogicalOperator::Empty(_)
             | LogicalOperator::Distinct(_)
-            | LogicalOperator::Filter(_)
             | LogicalOperator::Materialize(_) => {
                 // These are determined by their children
             }
